@@ -14,6 +14,9 @@ import GocoinV.Proofs.C19Hist
 import GocoinV.Proofs.C19Vol
 import GocoinV.Proofs.C19Lazy
 import GocoinV.Proofs.C19Lz
+import GocoinV.Proofs.C19Bound
+import GocoinV.Proofs.C19Order
+import GocoinV.Proofs.C19Chunk
 import GocoinV.Gen.QdbFacts
 namespace GocoinV.Props.C19
 open GocoinV GocoinV.Qdb GocoinV.QdbSpec GocoinV.Proofs.C19
@@ -24,7 +27,7 @@ open GocoinV GocoinV.Qdb GocoinV.QdbSpec GocoinV.Proofs.C19
     both bufio buffer sizes, `freerec` frees only on-disk records, `loadlog` rejects an unreadable header,
     `defrag` clears PendingRecords. -/
 theorem model_matches_source_facts :
-    NO_BROWSE = Gen.QdbFacts.NO_BROWSE ∧ NO_CACHE = Gen.QdbFacts.NO_CACHE ∧
+    NO_BROWSE = Gen.QdbFacts.NO_BROWSE ∧ NO_CACHE = Gen.QdbFacts.NO_CACHE ∧ BR_ABORT = Gen.QdbFacts.BR_ABORT ∧
     YES_CACHE = Gen.QdbFacts.YES_CACHE ∧ YES_BROWSE = Gen.QdbFacts.YES_BROWSE ∧
     ({} : Opts) = { defragPerc := Gen.QdbFacts.DefaultDefragPercentVal, forcedPerc := Gen.QdbFacts.DefaultForcedDefragPerc,
                     maxPending := Gen.QdbFacts.DefaultMaxPending, maxPendingNoSync := Gen.QdbFacts.DefaultMaxPendingNoSync } ∧
@@ -256,7 +259,7 @@ theorem qdb_durable_sync_partial (load : Bool) (opts : Opts) (ops : List Op)
     ((openDB (db.fs.applyAll (syncEffs db)) vol' true opts').failed = none ∧
       ∀ k, (ilookup k (openDB (db.fs.applyAll (syncEffs db)) vol' true opts').index).map valOf =
            vrun (fun _ => none) ops k) ∧
-    (∃ L, sync db = (if L.extra > L.opts.forcedPerc * L.need / 100 then defrag L else L) ∧
+    (∃ L, sync db = (if L.extra > mul64 L.opts.forcedPerc L.need / 100 then defrag L else L) ∧
       L.fs = db.fs.applyAll (syncEffs db)) := by
   intro db
   obtain ⟨h3, hv⟩ := run_inv3' ops _ (fresh_inv3 (eg := false) load opts) (ok2_fresh load opts ops ok) fits
@@ -308,7 +311,7 @@ example :
 /-- Durability across a crash anywhere inside defrag() (forced or automatic, incl. writedatfile and cleanupold).
     Take any reachable state of a non-volatile store (empty directory, cached-sub-language history, side
     conditions as above; additionally the data-file sequence number does not wrap and the index snapshot —
-    16 + 24 bytes per record — fits the 1 MiB bufio buffer, i.e. at most 43 689 records, so that it reaches its
+    16 + 24 bytes per record — fits the 1 MiB bufio buffer, i.e. at most 43 690 records, so that it reaches its
     file with one Write). Let `es` be the file operations defrag() performs (new data file and its contents in
     whatever chunks bufio produces, new index file, its contents, removal of the log, of the old index file and
     of the unused data files). Then for EVERY n the directory that exists after the first n of them reopens
@@ -362,7 +365,7 @@ theorem qdb_durable_defrag_partial (load : Bool) (opts : Opts) (ops : List Op)
     LoadData, any options) that completes; then the history goes on, with further crashes.
     Start: NewDBExt(non-volatile) on an empty directory. Bounds (`HFits`): keys 64-bit, flags 32-bit, data file
     < 4 GiB, sequence numbers do not wrap (`OpFits3`, `maxSeq`), and at every item the index snapshot (16 + 24 bytes
-    per record) is at most the 1 MiB bufio buffer, i.e. at most 43 689 records (`DFits`). Then:
+    per record) is at most the 1 MiB bufio buffer, i.e. at most 43 690 records (`DFits`). Then:
     (1) the store never fails — every NewDBExt on every crash directory succeeds (no os.Exit, no panic);
     (2) Get returns, for every key, the in-memory map `vals db`; Count is the number of keys of that map;
     (3) the pair (in-memory map, durable map = what a reopen of the current directory finds) follows the
@@ -491,19 +494,19 @@ theorem lazy_reopen_first_get_partial (load : Bool) (opts : Opts) (H : List HIte
     once: `twin H`) with the ghost field `eager` set, which makes `freerec` / sync() / `load` test a flag bit that no
     32-bit flag word has — the ghost keeps every record in memory while writing exactly the same bytes (the flags are
     the same). Bounds, along the ghost run (`HFits`): keys 64-bit, data file < 4 GiB, sequence numbers do not wrap,
-    index snapshot at most the 1 MiB bufio buffer (43 689 records). Then the real store `a` and the ghost never part:
+    index snapshot at most the 1 MiB bufio buffer (43 690 records). Then the real store `a` and the ghost never part:
     `a` never fails (no "file not found" exit in loadrec, no nil dereference in sync(), every NewDBExt on every crash
     directory succeeds), both are in the SAME directory and have performed the SAME file operations, and
     Get of every key returns the in-memory map `vals g` (what an in-memory map gives on the same history — the first
-    component of the specification `DurOK`, on which operations act by `vstep`), Browse shows exactly what the ghost's
-    Browse shows (for which browse_after_history_partial / qdb_refines_map_partial speak), Count is the ghost's. -/
+    component of the specification `DurOK`, on which operations act by `vstep`), Browse (walk results: any 32-bit word without BR_ABORT, `WalkOK5`) shows exactly what the ghost's
+    Browse shows — which is the map's: qdb_browse_is_map — and Count is the ghost's. -/
 theorem qdb_refines_map (load : Bool) (opts : Opts) (H : List HItem)
     (ok : ∀ i ∈ H, HOK5 i) (fits : HFits (openDB {} false load opts true) (twin H)) :
     let a := hrun (openDB {} false load opts) H
     let g := hrun (openDB {} false load opts true) (twin H)
     a.failed = none ∧ a.fs = g.fs ∧ a.effs = g.effs ∧
     (∀ k, (Qdb.get a k).1.failed = none ∧ (Qdb.get a k).2 = vals g k) ∧
-    (∀ w, (∀ kf ∈ w, kf.2 < 2^32) → (browse a w).2 = (browse g w).2) ∧ count a = count g ∧
+    (∀ w, WalkOK5 w → (browse a w).2 = (browse g w).2) ∧ count a = count g ∧
     (∃ ks : List Key, ks.Nodup ∧ (∀ k, k ∈ ks ↔ (vals g k).isSome = true) ∧ count a = ks.length) := by
   intro a g
   have hT0 : Twin (openDB {} false load opts) (openDB {} false load opts true) := by
@@ -516,12 +519,14 @@ theorem qdb_refines_map (load : Bool) (opts : Opts) (H : List HItem)
     exact ⟨rfl, trivial, (fun _ _ h _ => by cases h), (fun _ _ h _ => by cases h), rfl⟩
   have hT : Twin a g := twin_run H _ _ hT0 ok fits
   obtain ⟨o1, o2, o3, o4, o5, o6⟩ := hT.observe
-  refine ⟨o1, o2, o3, o4, o5, o6, Keys g.index, hT.sinv.nodup, fun k => ?_, by rw [o6]; simp [count, Keys]⟩
+  refine ⟨o1, o2, o3, o4, fun w hw => o5 w (fun kf hkf => (hw kf hkf).1), o6, Keys g.index, hT.sinv.nodup, fun k => ?_,
+    by rw [o6]; simp [count, Keys]⟩
   rw [vals_eq, Option.isSome_map]
   exact (ilookup_isSome_iff k g.index).symm
 
-/-- DURABILITY, the whole operation language (central theorem; histories, ghost and bounds as in qdb_refines_map, crash
-    model: process kill). The pair (in-memory map `vals g` — what Get of the real store returns, durable map = what a
+/-- DURABILITY, the whole operation language (central theorem; histories, ghost and bounds as in qdb_refines_map; crash
+    model: process kill at system-call boundaries — a completed file operation survives entirely, an interrupted one has
+    not happened; `diskValue F` is what NewDBExt finds in directory F: durable_map_is_reopen). The pair (in-memory map `vals g` — what Get of the real store returns, durable map = what a
     reopen of the REAL store's current directory finds) follows the durable-map specification `DurOK` along the
     history: operations act on the in-memory map as on a plain map; the durable map stays or becomes the complete
     in-memory map, and it MUST become it at Close+reopen and, for a non-volatile store, at Sync and Defrag(true); a
@@ -570,7 +575,7 @@ example :
   · intro i hi
     simp only [List.mem_cons, List.not_mem_nil, or_false] at hi
     rcases hi with rfl | rfl | rfl | rfl | rfl | rfl | rfl | rfl | rfl | rfl | rfl | rfl | rfl <;>
-      simp [HOK5, itemOp, OpOK5, NO_CACHE]
+      simp [HOK5, itemOp, OpOK5, WalkOK5, NO_CACHE, BR_ABORT, hasFlag]
   · show HFits (openDB {} false true {} true)
       [HItem.op (.putExt 1 [1, 2] NO_CACHE), .op (.put 2 [5]), .op .sync, .op (.get 1),
        .op (.reopen false true { maxPending := 0 }), .op (.applyFlags 2 NO_CACHE), .op (.browse [(1, NO_CACHE)]),
@@ -579,14 +584,195 @@ example :
     simp only [HFits, OpFits3, OpFits, SizeOK, dFits_iff]
     decide
 
+/-- the walk results the theorems allow exclude BR_ABORT (value 4), which the model's Browse does not implement; every
+    other 32-bit word is allowed -/
+example : ¬ OpOK5 (.browse [(1, 4)]) ∧ ¬ OpOK5 (.browse [(1, 0xFFFFFFFF)]) ∧ OpOK5 (.browse [(1, 0xFFFFFFFB), (2, 0x80000003)]) := by
+  refine ⟨fun h => ?_, fun h => ?_, ?_⟩
+  · exact absurd (h (1, 4) List.mem_cons_self).2 (by decide)
+  · exact absurd (h (1, 0xFFFFFFFF) List.mem_cons_self).2 (by decide)
+  · intro kf hkf
+    simp only [List.mem_cons, List.not_mem_nil, or_false] at hkf
+    rcases hkf with rfl | rfl <;> exact ⟨by decide, by decide⟩
+
+/-- BROWSE, the whole operation language (histories, ghost and bounds exactly as in qdb_refines_map — NO_CACHE flags,
+    lazy loading, both modes, crashes and recoveries included). `absv g` is the in-memory map WITH the browsing flags
+    (key ↦ (value, flags); `vals g k = mget (absv g) k` is its value part — the map qdb_refines_map and qdb_durable speak
+    about). For every walk function that returns 32-bit words without BR_ABORT, Browse of the REAL store
+    (a) visits exactly the entries of that map whose flag word does not say NO_BROWSE (`mbrowseOut`), each with its
+        value — in particular records that are not in memory are read back from the data file correctly;
+    (b) soundness: every (key, value) it shows is the map's;
+    (c) completeness: every entry whose flags do not say NO_BROWSE is shown.
+    (Which flag word a record carries after a reopen is what was persisted with it at its last sync / defrag.) -/
+theorem qdb_browse_is_map (load : Bool) (opts : Opts) (H : List HItem)
+    (ok : ∀ i ∈ H, HOK5 i) (fits : HFits (openDB {} false load opts true) (twin H)) (w : List (Key × Nat)) (hw : WalkOK5 w) :
+    let a := hrun (openDB {} false load opts) H
+    let g := hrun (openDB {} false load opts true) (twin H)
+    (browse a w).2 = mbrowseOut (absv g) ∧
+    (∀ kv ∈ (browse a w).2, vals g kv.1 = some kv.2) ∧
+    (∀ k v f, ilookup k (absv g) = some (v, f) → hasFlag f NO_BROWSE = false → (k, v) ∈ (browse a w).2) := by
+  intro a g
+  obtain ⟨_, _, _, _, o5, _⟩ := qdb_refines_map load opts H ok fits
+  have hok : ∀ i ∈ twin H, HOK (openDB {} false load opts true).eager i := by
+    rw [openDB_eager]; exact hok_twin H ok
+  obtain ⟨h3, _⟩ := hrun_dur (twin H) _ (Or.inl (fresh_inv3 (eg := true) load opts)) hok fits
+  have hge : g.eager = true :=
+    (hrun_eager (twin H) _ (Or.inl (fresh_inv3 (eg := true) load opts)) hok fits).trans (openDB_eager {} false load opts)
+  have hb : (browse g w).2 = mbrowseOut (absv g) :=
+    (browse_cached g w h3.cached (by rw [hge]; exact fun kf hkf => hasFlag_big32 kf.2 (hw kf hkf).1)).2.2
+  have hnd : (Keys (absv g)).Nodup := by rw [keys_absv]; exact h3.nodup
+  have e : (browse a w).2 = mbrowseOut (absv g) := (o5 w hw).trans hb
+  refine ⟨e, ?_, ?_⟩
+  · rw [e]
+    intro kv hkv
+    unfold mbrowseOut at hkv
+    obtain ⟨⟨k, v, f⟩, hmem, hf⟩ := List.mem_filterMap.mp hkv
+    simp only [] at hf
+    split at hf
+    · cases hf
+    · cases hf
+      show mget (absv g) k = some v
+      unfold mget
+      rw [ilookup_of_mem_nodup _ hnd k (v, f) hmem]
+      rfl
+  · rw [e]
+    intro k v f hl hf
+    unfold mbrowseOut
+    exact List.mem_filterMap.mpr ⟨(k, v, f), ilookup_key_pair k (v, f) _ hl, by simp [hf]⟩
+
+/-- THE DURABLE MAP IS WHAT NewDBExt FINDS (link between `diskValue`, in which qdb_durable states durability, and the
+    model's real open). After any history as in qdb_refines_map / qdb_durable, take the directory the REAL store is in
+    and call NewDBExt on it in ANY mode with ANY LoadData and any options (bound: the data-file numbers found on disk do
+    not wrap — the same bound `HFits` states for every recovery). Then NewDBExt does not fail, and for every key the
+    first Get does not fail and returns exactly `diskValue a.fs k` (with LoadData = false `loadrec` reads it from the
+    data file; with LoadData = true NO_CACHE records are skipped by `load` and read back on demand likewise). The
+    ghost's NewDBExt holds `diskValue a.fs` as its in-memory map. Since a crash item at the end of a history replaces
+    the directory by a crash directory and runs exactly this NewDBExt, `diskValue` of a crash directory is what the
+    recovery finds. -/
+theorem durable_map_is_reopen (load : Bool) (opts : Opts) (H : List HItem)
+    (ok : ∀ i ∈ H, HOK5 i) (fits : HFits (openDB {} false load opts true) (twin H))
+    (vol' load' : Bool) (opts' : Opts)
+    (hmax : (openIndex { fs := (hrun (openDB {} false load opts) H).fs, volatile := vol', opts := opts', eager := true }).maxSeq + 1 < 2^32) :
+    let a := hrun (openDB {} false load opts) H
+    (openDB a.fs vol' load' opts').failed = none ∧
+    (∀ k, (Qdb.get (openDB a.fs vol' load' opts') k).1.failed = none ∧
+          (Qdb.get (openDB a.fs vol' load' opts') k).2 = diskValue a.fs k) ∧
+    (∀ k, vals (openDB a.fs vol' true opts' true) k = diskValue a.fs k) := by
+  intro a
+  obtain ⟨_, hfs, _⟩ := qdb_refines_map load opts H ok fits
+  have hok : ∀ i ∈ twin H, HOK (openDB {} false load opts true).eager i := by
+    rw [openDB_eager]; exact hok_twin H ok
+  obtain ⟨h3, _⟩ := hrun_dur (twin H) _ (Or.inl (fresh_inv3 (eg := true) load opts)) hok fits
+  have hge : (hrun (openDB {} false load opts true) (twin H)).eager = true :=
+    (hrun_eager (twin H) _ (Or.inl (fresh_inv3 (eg := true) load opts)) hok fits).trans (openDB_eager {} false load opts)
+  have hO : OpenOK true a.fs := by
+    have hg : OpenOK (hrun (openDB {} false load opts true) (twin H)).eager
+        (hrun (openDB {} false load opts true) (twin H)).fs := by
+      rcases h3 with h | h
+      · exact openOK_of_inv _ h.inv
+      · obtain ⟨P, hP, _⟩ := h.gh
+        exact openOK_of_inv (ghost _ P) hP.inv
+    rw [hge] at hg
+    show OpenOK true (hrun (openDB {} false load opts) H).fs
+    rw [hfs]
+    exact hg
+  have hT := open_twin a.fs vol' load' opts' false [] hO hmax
+  obtain ⟨t1, _, _, t4, _⟩ := hT.observe
+  have hv : ∀ k, vals (openDB a.fs vol' true opts' true) k = diskValue a.fs k := by
+    intro k
+    rw [vals_eq]
+    exact (open_readable a.fs hO.readable vol' opts').2 k
+  refine ⟨t1, fun k => ?_, hv⟩
+  obtain ⟨u1, u2⟩ := t4 k
+  exact ⟨u1, u2.trans (hv k)⟩
+
+/-- OBSERVATION — the stated bound "index snapshot ≤ 1 MiB" (16 + 24·n ≤ 2^20, i.e. n ≤ 43 690 records) is NEEDED, and
+    this is the exact condition under which the durability claim fails beyond it. writedatfile sends the snapshot
+    through a 1 MiB bufio.Writer; with more than 43 690 records the first Write that reaches the file carries the first
+    2^20 bytes, which end 12 bytes into record number 43 690 (counting from 0): its key and its datpos. If that record's
+    key is (VersionSequence << 32) | 0xFFFFFFFF and its datpos is 0x494E4946 (the bytes "FINI"; a position ≈ 1.23 GB into
+    the data file), these 2^20 bytes ARE byte for byte the complete snapshot of the first 43 690 records only:
+    `read_and_check_file` accepts them, `loaddat` reads the first 43 690 records — a crash between the first and the
+    second Write of writedatfile then leaves a directory whose newest valid index lacks every record from number 43 690
+    on (and the log, of the previous version, is discarded). No such crash directory exists within the bound (there the
+    snapshot reaches the file with ONE Write: qdb_durable). client/peersdb allows 70 000 records, i.e. it can leave the
+    bound; its records are at most 807 bytes, so its data file stays below 57 MB and no datpos can be 0x494E4946: the
+    condition cannot arise there (manifest: observation, not a finding). -/
+theorem snapshot_cut_at_buffer_boundary_observation (ver : Nat) (hv : ver < 2^32) (pre post : List (Key × Rec)) (r : Rec)
+    (hn : pre.length = 43690) (hp : r.pos = 0x494E4946) (hfit : ∀ kr ∈ pre, RecFits kr.1 kr.2) :
+    let full := snapBytes ver (pre ++ (ver * 2^32 + 0xFFFFFFFF, r) :: post)
+    16 + 24 * pre.length = bufSize ∧
+    full.take bufSize = snapBytes ver pre ∧
+    checkIdxFile (some (full.take bufSize)) = some (ver, snapBytes ver pre) ∧
+    snapshotRecs (full.take bufSize) = pre.map fun kr => (kr.1, strip kr.2) := by
+  intro full
+  have hb : 16 + 24 * pre.length = bufSize := by rw [hn]; decide
+  have ht : full.take bufSize = snapBytes ver pre := by
+    rw [← hb]; exact snapBytes_take ver pre post r hp
+  refine ⟨hb, ht, ?_, ?_⟩
+  · rw [ht]; exact checkIdxFile_snapBytes ver pre hv
+  · rw [ht]; exact snapshotRecs_snapBytes ver pre hfit
+
+/-- The same OBSERVATION at the level of the MODEL's writedatfile (bufio.Writer modelled exactly): if the index holds at
+    position 43 690 a record with key (new VersionSequence << 32) | 0xFFFFFFFF and datpos 0x494E4946, then the file
+    operations of writedatfile START with: create the new index file; ONE Write of exactly the complete snapshot of the
+    first 43 690 records (the buffer ran full 12 bytes into that record). The directory after these two operations — a
+    crash point — holds in the new slot a file that `read_and_check_file` accepts under the new version
+    (snapshot_cut_at_buffer_boundary_observation), although 1 + |post| records are missing from it. -/
+theorem writedatfile_first_write_observation (db : DB) (pre post : List (Key × Rec)) (r : Rec)
+    (hidx : db.index = pre ++ (u32 (db.verSeq + 1) * 2^32 + 0xFFFFFFFF, r) :: post)
+    (hn : pre.length = 43690) (hp : r.pos = 0x494E4946) :
+    (∃ rest, (writedatfile db).effs = db.effs ++
+      [("qdb.writedatfile:created", .createIdx (1 - db.datIdx)),
+       ("qdb.writedatfile:written", .appendIdx (1 - db.datIdx) (snapBytes (u32 (db.verSeq + 1)) pre))] ++ rest) ∧
+    idxFile (db.fs.applyAll [.createIdx (1 - db.datIdx), .appendIdx (1 - db.datIdx) (snapBytes (u32 (db.verSeq + 1)) pre)])
+      (1 - db.datIdx) = some (snapBytes (u32 (db.verSeq + 1)) pre) ∧
+    checkIdxFile (some (snapBytes (u32 (db.verSeq + 1)) pre)) = some (u32 (db.verSeq + 1), snapBytes (u32 (db.verSeq + 1)) pre) :=
+  ⟨writedatfile_first_write db pre post r hidx hn hp, idxFile_create_append _ _ _,
+   checkIdxFile_snapBytes _ pre (Nat.mod_lt _ (by decide))⟩
+
+/-- non-vacuity of the observation: such record lists exist; and the bound of the central theorems allows exactly
+    43 690 records -/
+example : (∃ (pre : List (Key × Rec)) (r : Rec), pre.length = 43690 ∧ r.pos = 0x494E4946 ∧ (∀ kr ∈ pre, RecFits kr.1 kr.2)) ∧
+    16 + 24 * 43690 ≤ bufSize ∧ ¬ (16 + 24 * 43691 ≤ bufSize) :=
+  ⟨⟨List.replicate 43690 (0, { data := none, seq := 1, pos := 4, len := 0, flags := 0 }),
+    { data := none, seq := 1, pos := 0x494E4946, len := 0, flags := 0 }, List.length_replicate, rfl,
+    fun kr h => by rw [List.eq_of_mem_replicate h]; exact ⟨by decide, by decide, by decide, by decide, by decide⟩⟩,
+   by decide, by decide⟩
+
+/-- MAP ITERATION ORDER, the part that is proved. writedatfile writes the snapshot in the order in which Go iterates the
+    index map (arbitrary; list order in the model). For ANY other order of the same records (distinct keys, fields in
+    range) the snapshot file passes `read_and_check_file` just the same and `loaddat` gives EVERY key the same record:
+    what NewDBExt rebuilds from a snapshot does not depend on writedatfile's iteration order. (NOT proved: independence
+    of the order in which sync() and defrag() write the DATA of several records — another order puts the records at
+    other file positions, so the index entries themselves differ; the central theorems cover the list order only.) -/
+theorem snapshot_record_order_irrelevant (ver : Nat) (hv : ver < 2^32) (recs recs' : List (Key × Rec))
+    (hp : recs.Perm recs') (hnd : (recs.map (·.1)).Nodup) (hfit : ∀ kr ∈ recs, RecFits kr.1 kr.2)
+    (db : DB) (hdb : db.index = []) :
+    checkIdxFile (some (snapBytes ver recs')) = some (ver, snapBytes ver recs') ∧
+    ∀ k, ilookup k (memputAll db (snapshotRecs (snapBytes ver recs'))).index =
+         ilookup k (memputAll db (snapshotRecs (snapBytes ver recs))).index :=
+  ⟨checkIdxFile_snapBytes ver recs' hv, loaddat_order ver recs recs' hp hnd hfit db hdb⟩
+
+/-- non-vacuity: two records in both orders -/
+example : [(1, newRec [1] 0), (2, newRec [] 1)].Perm [(2, newRec [] 1), (1, newRec [1] 0)] ∧
+    ([(1, newRec [1] 0), (2, newRec [] 1)].map (·.1)).Nodup := ⟨List.Perm.swap _ _ _, by decide⟩
+
 -- OPEN (outside the statements above, see the manifest): (i) index snapshots larger than the 1 MiB bufio buffer, i.e.
---   more than 43 689 records (`DFits.small` — a stated bound of qdb_refines_map / qdb_durable; a chunk boundary could
---   in principle fall so that a prefix of the snapshot ends in bytes that look like the FFFFFFFF-seq-FINI trailer; the
---   data file has no such bound: defrag's data writer is analysed for any number of chunks); (ii) which browsing flags
---   a record carries after a reopen is specified as "what was persisted with it" (the ghost's Browse), not by an
---   independent map-level rule; (iii) BR_ABORT and the WalkFunction of NewDBExt are outside the model; recovery
---   attempts that themselves die (`recrash`) are modelled as non-volatile NewDBExt calls (the file operations of
---   NewDBExt do not depend on the mode); (iv) torn / reordered writes and power loss (the crash model is process kill).
+--   more than 43 690 records (`DFits.small` — a stated bound of qdb_refines_map / qdb_durable; beyond it the property is
+--   false in principle under the exact condition of snapshot_cut_at_buffer_boundary_observation; the data file has no
+--   such bound: defrag's data writer is analysed for any number of chunks); (ii) which browsing flags a record carries
+--   after a reopen is specified as "what was persisted with it" (qdb_browse_is_map speaks about the flag word the ghost
+--   holds), not by an independent map-level rule; (iii) BR_ABORT (walk results with the bit of value 4 are excluded by `OpOK5` /
+--   `WalkOK5`), BrowseAll (in the model and the harness as `peek`, not an `Op` of the theorems), GetNoMutex, Flush and
+--   the WalkFunction of NewDBExt are outside the theorems' operation language; (iv) the completing NewDBExt of a crash
+--   item loads the data (`hstep .crash` passes LoadData = true; recovery attempts that themselves die, `recrash`, are
+--   non-volatile NewDBExt calls — the file operations of NewDBExt depend neither on the mode nor on LoadData); a
+--   LoadData = false NewDBExt on the directory reached by ANY history (hence on every crash directory: end the history
+--   with the crash item) is durable_map_is_reopen; (v) the crash model is PROCESS KILL AT SYSTEM-CALL BOUNDARIES: every
+--   completed file operation survives entirely, an interrupted one has not happened. A write(2) torn inside (SIGKILL
+--   between two pages of a multi-page write, power loss, reordering by the file system) is outside it; (vi) Go's map
+--   iteration order is the list order of the model (one of the n! write orders of every multi-record sync / defrag; for
+--   the snapshot writer the order is proved irrelevant: snapshot_record_order_irrelevant).
 
 /-- non-vacuity of reopen_after_close_identity_partial: a two-record store -/
 example : IndexWF false [(1, (newRec [1, 2, 3] 0)), (2 ^ 64 - 1, (newRec [] NO_BROWSE))] := by
